@@ -360,13 +360,18 @@ PROPS["C15"] = dict(
          "states; atomicMin/Max/Add/Subtract sequentially; per-thread "
          "containers filled from on_each. Non-trivial = >=2 threads received "
          "an update / range crosses a word boundary / tree depth>=2 / value "
-         "changed (per case, see harness)",
+         "changed (per case, see harness). Concurrent half "
+         "(c15_concurrent, gsched): 2-3 real threads x 1-2 operations on "
+         "shared targets -- atomicMin/Max/Add/Subtract CAS loops, "
+         "DynamicBitSet set/reset of distinct bits in the same word, "
+         "UnionFind merge/findAndCompress on 4 elements, InsertBag "
+         "concurrent push then serial read, reducers -- all schedules with "
+         "<= d deviations (d=1-3 quick, 2-5 thorough); oracle = the value "
+         "the same operations give in any sequential order",
     bound_note="exhaustive to the stated lengths; signed overflow and "
                "non-finite float results excluded (undefined for model and "
                "implementation alike)",
-    assumptions=E2_ASSUME + [
-        "the schedule-explored half (concurrent atomicMin/Max, bitset bits of "
-        "one word, union-find merges) is not part of this check yet"],
+    assumptions=E2_ASSUME + E1_ASSUME,
     deadline=dict(quick=240, thorough=2400),
     technique="bounded-exhaustive enumeration of update multisets x thread "
               "assignments and explicit-state BFS over operation histories "
@@ -379,7 +384,8 @@ PROPS["C15"] = dict(
                "(reducers are per-thread, so the result is schedule "
                "independent by construction)",
     design_ref="DESIGN.md 3, 7/C15",
-    parts=[dict(engine="e2", harness="c15_reductions")],
+    parts=[dict(engine="e2", harness="c15_reductions", weight=3),
+           dict(engine="e1", harness="c15_concurrent", weight=1)],
 )
 
 PROPS["C17"] = dict(
